@@ -362,8 +362,27 @@ func Enter(site int) {
 	}
 	if s := sched; s != nil && s.cur != nil {
 		s.yield(site, 0)
+		return
+	}
+	if stepBudget > 0 {
+		Steps++
+		if Steps > stepBudget {
+			stepBudget = 0
+			Aborted = true
+			panic(ErrBudget)
+		}
 	}
 }
+
+// Step budget for runs outside the scheduler (C14/C16): a run that enters more than the
+// given number of functions/loop iterations is unwound with ErrBudget.
+var (
+	Steps      int64
+	stepBudget int64
+	Aborted    bool
+)
+
+func SetStepBudget(n int64) { Steps, stepBudget, Aborted = 0, n, false }
 
 // Access marks a statement that touches a package-level variable.
 func Access(site, v, kind int) {
